@@ -13,6 +13,8 @@ def main():
     tier = os.environ.get('SEED_TIER', 'quick')
     res_path = os.environ.get('SEED_RESULTS') or os.path.join(V, 'seeded', 'RESULTS.json')
     results = json.load(open(res_path)) if os.path.exists(res_path) else {}
+    seeds = [x for x in (os.environ.get('SEED_SEEDS') or os.environ.get('VERIF_SEED') or '1').split(',') if x]
+    keep = os.environ.get('SEED_KEEP')
     base = tempfile.mkdtemp(prefix='verif-seed-', dir=os.environ.get('VERIF_SCRATCH', '/var/tmp'))
     wt = os.path.join(base, 'repo')
     a = run(['git', '-C', '/repo', 'worktree', 'add', '--detach', wt, 'HEAD'])
@@ -30,11 +32,22 @@ def main():
             try:
                 for p in props:
                     t0 = time.time()
-                    r = run(['python3', os.path.join(V, 'tools', 'check.py'), p, '--tier', tier], cwd=V, env=env)
+                    # SEED_SEEDS: further seeds are tried while the change goes undetected (for changes that are expected to be detected)
+                    for sd in seeds if meta['breaks'] else seeds[:1]:
+                        r = run(['python3', os.path.join(V, 'tools', 'check.py'), p, '--tier', tier], cwd=V, env=dict(env, VERIF_SEED=sd))
+                        if r.returncode == 1:
+                            break
+                    if keep and r.returncode == 1:
+                        os.makedirs(keep, exist_ok=True)
+                        for l in r.stdout.split('\n'):
+                            if l.startswith('VIOLATION') and 'replay=' in l:
+                                src = l.split('replay=')[1].strip()
+                                if os.path.exists(src):
+                                    shutil.copy(src, os.path.join(keep, '%s__%s__%s' % (sid, p, os.path.basename(src))))
                     lines = [l for l in r.stdout.split('\n') if l.startswith(('VIOLATION', 'INCONCLUSIVE', 'DIVERGENCE', 'KNOWN'))]
                     forms = sorted(set(l.split('formula ')[1].split(' ')[0] for l in r.stderr.split('\n') if 'formula ' in l))
                     out[p] = {'exit': r.returncode, 'violations': sum(1 for l in lines if l.startswith('VIOLATION')), 'formulas': forms,
-                              'divergences': sum(1 for l in lines if l.startswith('DIVERGENCE')), 'seconds': round(time.time() - t0),
+                              'divergences': sum(1 for l in lines if l.startswith('DIVERGENCE')), 'seconds': round(time.time() - t0), 'seed': sd,
                               'inconclusive': [l[:160] for l in lines if l.startswith('INCONCLUSIVE')][:3]}
                     print(sid, p, out[p], flush=True)
             finally:
